@@ -15,7 +15,7 @@ inductive DSel where
   | keep                              -- not mentioned: `slice(None)`
   | item (p : Nat)                    -- a single item, at position p
   | sub (d' : Dim) (ps : List Nat)    -- a subset `Dimension` d' (or list) whose items sit at positions ps
-deriving Inhabited
+deriving Inhabited, DecidableEq
 
 def DSel.toIx : DSel → Ix
   | .keep => .all
@@ -50,6 +50,19 @@ def SelsOK : DimSet → List DSel → Prop
   | d :: D, s :: S => s.OK d ∧ SelsOK D S
   | [], [] => True
   | _, _ => False
+
+instance (d : Dim) : (s : DSel) → Decidable (s.OK d)
+  | .keep => isTrue trivial
+  | .item p => inferInstanceAs (Decidable (p < d.len))
+  | .sub d' ps => inferInstanceAs (Decidable (ps.length = d'.len ∧ ∀ p ∈ ps, p < d.len))
+
+instance : (D : DimSet) → (S : List DSel) → Decidable (SelsOK D S)
+  | [], [] => isTrue trivial
+  | d :: D, s :: S =>
+    have : Decidable (SelsOK D S) := instDecidableSelsOK D S
+    inferInstanceAs (Decidable (s.OK d ∧ SelsOK D S))
+  | [], _ :: _ => isFalse (fun h => h)
+  | _ :: _, [] => isFalse (fun h => h)
 
 theorem SelsOK.length : ∀ {D : DimSet} {S : List DSel}, SelsOK D S → S.length = D.length
   | [], [], _ => rfl
@@ -305,5 +318,212 @@ theorem mesh_meshInfos (n : Nat) : ∀ (D : DimSet) (S : List DSel) (k : Nat), S
         · exact h3 m hm
   | [], _ :: _, _, h => by cases h
   | _ :: _, [], _, h => by cases h
+
+end Flodym
+
+namespace Flodym
+open DimSet SubArray
+
+theorem mesh_allAdv (n : Nat) : ∀ (D : DimSet) (S : List DSel) (k : Nat),
+    ∀ ix ∈ meshIxs n D S k, ix.isAdv = true
+  | [], S, _ => by cases S <;> (intro ix h; cases h)
+  | _ :: _, [], _ => by intro ix h; cases h
+  | d :: D, s :: S, k => by
+    intro ix h
+    cases s with
+    | keep =>
+      simp only [meshIxs, List.mem_cons] at h
+      rcases h with rfl | h
+      · rfl
+      · exact mesh_allAdv n D S (k + 1) ix h
+    | item p =>
+      simp only [meshIxs, List.mem_cons] at h
+      rcases h with rfl | h
+      · rfl
+      · exact mesh_allAdv n D S k ix h
+    | sub d' ps =>
+      simp only [meshIxs, List.mem_cons] at h
+      rcases h with rfl | h
+      · rfl
+      · exact mesh_allAdv n D S (k + 1) ix h
+
+theorem takeWhile_notAdv_nil (l : List Ix) (h : ∀ ix ∈ l, ix.isAdv = true) :
+    l.takeWhile (fun ix => !ix.isAdv) = [] := by
+  cases l with
+  | nil => rfl
+  | cons a t => simp [List.takeWhile_cons, h a (by simp)]
+
+theorem advAdjacent_allAdv (l : List Ix) (h : ∀ ix ∈ l, ix.isAdv = true) : advAdjacent l = true := by
+  unfold advAdjacent
+  have hflags : ∀ b ∈ l.map Ix.isAdv, b = true := by
+    intro b hb
+    obtain ⟨ix, hix, rfl⟩ := List.mem_map.mp hb
+    exact h ix hix
+  rw [List.all_eq_true]
+  intro b hb
+  have h1 : b ∈ ((l.map Ix.isAdv).dropWhile (!·)).reverse :=
+    (List.dropWhile_sublist _).subset hb
+  have h2 : b ∈ (l.map Ix.isAdv).dropWhile (!·) := List.mem_reverse.mp h1
+  have h3 : b ∈ l.map Ix.isAdv := (List.dropWhile_sublist _).subset h2
+  simpa using hflags b h3
+
+theorem sliceLens_allAdv : ∀ (l : List Ix) (sh : List Nat), (∀ ix ∈ l, ix.isAdv = true) →
+    sliceLens l sh = []
+  | [], _, _ => by simp [sliceLens]
+  | _ :: _, [], _ => by simp [sliceLens]
+  | a :: t, n :: sh, h => by
+    have ih := sliceLens_allAdv t sh (fun ix hix => h ix (by simp [hix]))
+    unfold sliceLens at ih ⊢
+    simp only [List.zipWith_cons_cons, List.filterMap_cons]
+    have ha := h a (by simp)
+    cases a with
+    | all => simp [Ix.isAdv] at ha
+    | int i => simpa using ih
+    | list l => simpa using ih
+    | mesh l k m => simpa using ih
+
+theorem mesh_anyArr (n : Nat) : ∀ (D : DimSet) (S : List DSel) (k : Nat), SelsOK D S →
+    (∃ s ∈ S, s.isSub = true) → (meshIxs n D S k).any Ix.isArr = true
+  | [], [], _, _, hs => by obtain ⟨s, hs, _⟩ := hs; cases hs
+  | d :: D, s :: S, k, h, hs => by
+    cases s with
+    | keep => simp [meshIxs, Ix.isArr]
+    | sub d' ps => simp [meshIxs, Ix.isArr]
+    | item p =>
+      obtain ⟨s, hs1, hs2⟩ := hs
+      have : s ∈ S := by
+        rcases List.mem_cons.mp hs1 with rfl | h'
+        · simp [DSel.isSub] at hs2
+        · exact h'
+      simp only [meshIxs, List.any_cons, Bool.or_eq_true]
+      right
+      exact mesh_anyArr n D S k h.2 ⟨s, this, hs2⟩
+  | [], _ :: _, _, h, _ => by cases h
+  | _ :: _, [], _, h, _ => by cases h
+
+/-- source index of the mesh regime: `b` holds the result coordinates; the k-th mesh reads `b[k]` -/
+theorem mesh_src (n : Nat) : ∀ (D : DimSet) (S : List DSel) (k : Nat) (b : List Nat) (e : Env),
+    SelsOK D S → Valid (outDims D S) e → b.drop k = (letters (outDims D S)).map e →
+    srcAdv b (meshIxs n D S k) [] = liftIdx D S e
+  | [], [], _, _, _, _, _, _ => rfl
+  | d :: D, s :: S, k, b, e, h, hv, hb => by
+    cases s with
+    | keep =>
+      simp only [outDims, letters, List.map_cons] at hb
+      have hk : b.getD k 0 = e d.letter := by
+        have : (b.drop k).head? = some (e d.letter) := by rw [hb]; rfl
+        rw [List.head?_drop] at this
+        simp [List.getD_eq_getElem?_getD, this]
+      have hb' : b.drop (k + 1) = (letters (outDims D S)).map e := by
+        have := congrArg List.tail hb
+        simpa [List.tail_drop, letters] using this
+      have hv' : Valid (outDims D S) e := fun d' hd' => hv d' (by simp [outDims, hd'])
+      have hlt : e d.letter < d.len := hv d (by simp [outDims])
+      simp only [meshIxs, srcAdv, liftIdx, hk]
+      rw [mesh_src n D S (k + 1) b e h.2 hv' hb']
+      congr 1
+      rw [List.getD_eq_getElem?_getD, List.getElem?_range hlt]; rfl
+    | item p =>
+      simp only [outDims] at hb hv
+      simp only [meshIxs, srcAdv, liftIdx]
+      rw [mesh_src n D S k b e h.2 hv hb]
+    | sub d' ps =>
+      simp only [outDims, letters, List.map_cons] at hb
+      have hk : b.getD k 0 = e d'.letter := by
+        have : (b.drop k).head? = some (e d'.letter) := by rw [hb]; rfl
+        rw [List.head?_drop] at this
+        simp [List.getD_eq_getElem?_getD, this]
+      have hb' : b.drop (k + 1) = (letters (outDims D S)).map e := by
+        have := congrArg List.tail hb
+        simpa [List.tail_drop, letters] using this
+      have hv' : Valid (outDims D S) e := fun d'' hd'' => hv d'' (by simp [outDims, hd''])
+      simp only [meshIxs, srcAdv, liftIdx, hk]
+      rw [mesh_src n D S (k + 1) b e h.2 hv' hb']
+  | [], _ :: _, _, _, _, h, _, _ => by cases h
+  | _ :: _, [], _, _, _, h, _, _ => by cases h
+
+theorem meshIxs_length (n : Nat) : ∀ (D : DimSet) (S : List DSel) (k : Nat), SelsOK D S →
+    (meshIxs n D S k).length = D.length
+  | [], [], _, _ => rfl
+  | d :: D, s :: S, k, h => by
+    cases s <;> simp [meshIxs, meshIxs_length n D S _ h.2]
+  | [], _ :: _, _, h => by cases h
+  | _ :: _, [], _, h => by cases h
+
+/-- numpy's rule when *every* index is advanced (ints and array indices, at least one array):
+the broadcast axes are the whole result -/
+theorem indexPlan_allAdv (shape : List Nat) (ixs : List Ix) (B : List Nat)
+    (hlen : ixs.length = shape.length) (hin : ixInBounds ixs shape = true)
+    (hB : bshape ixs = some B) (harr : ixs.any Ix.isArr = true)
+    (hadv : ∀ ix ∈ ixs, ix.isAdv = true) :
+    indexPlan shape ixs = some { shape := B, src := fun r => srcAdv (r.take B.length) ixs (r.drop B.length) } := by
+  unfold indexPlan
+  simp only [hlen, ne_eq, not_true_eq_false, if_false, hin, Bool.not_true,
+    Bool.false_eq_true, hB, harr, takeWhile_notAdv_nil ixs hadv,
+    advAdjacent_allAdv ixs hadv, sliceLens_allAdv ixs _ hadv, if_true, List.length_nil,
+    List.take_zero, List.drop_zero, List.nil_append, List.append_nil, Nat.zero_add]
+
+/-- the plan numpy follows for ints and `np.ix_` meshes: the broadcast axes (one per kept or
+subset dimension, in order) are the whole result -/
+theorem indexPlan_mesh (D : DimSet) (S : List DSel) (h : SelsOK D S) (hs : ∃ s ∈ S, s.isSub = true) :
+    ∃ p, indexPlan (DimSet.shape D) (convertMesh D (S.map DSel.toIx)) = some p ∧
+      p.shape = DimSet.shape (outDims D S) ∧
+      ∀ e, Valid (outDims D S) e → p.src ((letters (outDims D S)).map e) = liftIdx D S e := by
+  rw [convertMesh_eq D S h hs]
+  obtain ⟨n, hn⟩ : ∃ n, n = (outDims D S).length := ⟨_, rfl⟩
+  rw [← hn]
+  obtain ⟨ixs, hixs⟩ : ∃ ixs, ixs = meshIxs n D S 0 := ⟨_, rfl⟩
+  obtain ⟨hm1, hm2, hm3⟩ := mesh_meshInfos n D S 0 h
+  have hadv := mesh_allAdv n D S 0
+  rw [← hixs] at hm1 hm2 hm3 hadv ⊢
+  have hB : bshape ixs = some (DimSet.shape (outDims D S)) := by
+    unfold bshape
+    rw [hixs, mesh_listLens n D S 0, ← hixs]
+    cases hmi : meshInfos ixs with
+    | nil =>
+      exfalso
+      rw [hmi] at hm1
+      have hlen : (outDims D S).length = 0 := by
+        have := congrArg List.length hm1
+        simpa [DimSet.shape] using this.symm
+      obtain ⟨s, hsS, hsub⟩ := hs
+      exact absurd hlen (outDims_pos D S h s hsS hsub)
+    | cons m ms =>
+      have hall : ∀ x ∈ m :: ms, x.2.2 = n := by rw [← hmi]; exact hm3
+      have hnn : m.2.2 = n := hall m (by simp)
+      have h1 : (m :: ms).all (fun x => x.2.2 == m.2.2) = true := by
+        rw [List.all_eq_true]; intro x hx; simp [hall x hx, hnn]
+      have h2 : ((m :: ms).map (·.2.1) == List.range m.2.2) = true := by
+        rw [← hmi, hm2, hnn, beq_iff_eq, hn, List.range_eq_range']
+      simp only [h1, h2, Bool.and_self, if_true]
+      rw [← hmi, hm1]
+  have hlen : ixs.length = (DimSet.shape D).length := by
+    rw [hixs, meshIxs_length n D S 0 h]; simp [DimSet.shape]
+  have hin : ixInBounds ixs (DimSet.shape D) = true := by rw [hixs]; exact mesh_inBounds n D S 0 h
+  have harr : ixs.any Ix.isArr = true := by rw [hixs]; exact mesh_anyArr n D S 0 h hs
+  refine ⟨_, indexPlan_allAdv _ ixs _ hlen hin hB harr hadv, rfl, ?_⟩
+  intro e hv
+  have hl : ((letters (outDims D S)).map e).length = (DimSet.shape (outDims D S)).length := by
+    simp [letters, DimSet.shape]
+  show srcAdv (((letters (outDims D S)).map e).take (DimSet.shape (outDims D S)).length) ixs
+      (((letters (outDims D S)).map e).drop (DimSet.shape (outDims D S)).length) = _
+  rw [← hl, List.take_length, List.drop_length, hixs]
+  exact mesh_src n D S 0 _ e h hv (by simp)
+where
+  outDims_pos : ∀ (D : DimSet) (S : List DSel), SelsOK D S → ∀ s ∈ S, s.isSub = true →
+      (outDims D S).length ≠ 0
+    | [], [], _, s, hs, _ => by cases hs
+    | d :: D, s0 :: S, h, s, hs, hsub => by
+      cases s0 with
+      | keep => simp [outDims]
+      | sub d' ps => simp [outDims]
+      | item p =>
+        have : s ∈ S := by
+          rcases List.mem_cons.mp hs with rfl | h'
+          · simp [DSel.isSub] at hsub
+          · exact h'
+        simpa [outDims] using outDims_pos D S h.2 s this hsub
+    | [], _ :: _, h, _, _, _ => by cases h
+    | _ :: _, [], h, _, _, _ => by cases h
 
 end Flodym
